@@ -63,6 +63,52 @@ static void* rw_fiber(void* a) {
   return NULL;
 }
 
+// hammer: tight loops (no delays between operations) so that three-party races inside the lock-word updates, which have
+// no hook point, get a chance; writers also poll with trywrlock to grab the lock the moment it frees
+static void* rw_hammer_reader(void* a) {
+  fb_slot_t* s = (fb_slot_t*)a;
+  long i;
+  for (i = 0; i < (long)iters * 150; ++i) {
+    FB_BLOCKING(s, "C07 fiber_rwlock_rdlock", fiber_rwlock_rdlock(&rw));
+    const int r = atomic_fetch_add(&readers_in, 1) + 1;
+    vp_max(c_maxreaders, r);
+    const int w = atomic_load(&writers_in);
+    if (w != 0) vp_violation("C07", "rwlock:reader-with-writer", "trial %d (hammer): reader fiber %d holds the lock while %d writer(s) are inside", trial, s->id, w);
+    const long seen = plain_shared;
+    if (plain_shared != seen) vp_violation("C07", "rwlock:write-during-read", "trial %d (hammer): shared data changed while reader fiber %d holds the lock", trial, s->id);
+    atomic_fetch_sub(&readers_in, 1);
+    vp_add(c_rd, 1);
+    FB_BLOCKING(s, "C07 fiber_rwlock_rdunlock", fiber_rwlock_rdunlock(&rw));
+  }
+  return NULL;
+}
+static void* rw_hammer_writer(void* a) {
+  fb_slot_t* s = (fb_slot_t*)a;
+  long i;
+  for (i = 0; i < (long)iters * 30; ++i) {
+    int got = 0, tries = 0;
+    while (!got && tries++ < 200) {
+      got = fiber_rwlock_trywrlock(&rw) == FIBER_SUCCESS;
+      vp_add(got ? c_trywr_ok : c_trywr_fail, 1);
+      if (!got && (tries & 15) == 0) fiber_yield();
+    }
+    if (!got) FB_BLOCKING(s, "C07 fiber_rwlock_wrlock", fiber_rwlock_wrlock(&rw));
+    const int w = atomic_fetch_add(&writers_in, 1);
+    const int r = atomic_load(&readers_in);
+    if (w != 0 || r != 0)
+      vp_violation("C07", "rwlock:writer-not-alone", "trial %d (hammer): writer fiber %d holds the lock (%s) together with %d writer(s) and %d reader(s)", trial, s->id,
+                   got ? "trywrlock" : "wrlock", w, r);
+    plain_shared++;
+    if (atomic_load(&readers_in) != 0)
+      vp_violation("C07", "rwlock:reader-joined-writer", "trial %d (hammer): %d reader(s) entered while writer fiber %d holds the lock", trial, atomic_load(&readers_in), s->id);
+    atomic_fetch_sub(&writers_in, 1);
+    vp_add(c_wr, 1);
+    FB_BLOCKING(s, "C07 fiber_rwlock_wrunlock", fiber_rwlock_wrunlock(&rw));
+    if ((i & 7) == 0) fiber_yield();
+  }
+  return NULL;
+}
+
 void* sy_rwlock_root(void* x) {
   (void)x;
   const int trials = (int)vp_param("trials", 30);
@@ -90,8 +136,17 @@ void* sy_rwlock_root(void* x) {
     fb_slots_reset();
     fb_slot_t* sl[256];
     int i;
-    for (i = 0; i < F; ++i) sl[i] = fb_spawn(rw_fiber, NULL);
-    fb_join_all(sl, F);
+    int nf = F;
+    if (trial % 3 == 2) {
+      const int R = 4 + (int)(vp_rand(&rng) % 40), W = 1 + (int)(vp_rand(&rng) % 8);
+      nf = 0;
+      for (i = 0; i < R; ++i) sl[nf++] = fb_spawn(rw_hammer_reader, NULL);
+      for (i = 0; i < W; ++i) sl[nf++] = fb_spawn(rw_hammer_writer, NULL);
+      vp_count("rw_hammer_trials", 1);
+    } else {
+      for (i = 0; i < F; ++i) sl[i] = fb_spawn(rw_fiber, NULL);
+    }
+    fb_join_all(sl, nf);
     fiber_manager_all_stats(&st1);
     if (rw.state.blob != 0)
       vp_violation("C07", "rwlock:state-nonzero-at-end", "trial %d: nobody holds or waits but state is write_locked=%u readers=%u waiting_readers=%u waiting_writers=%u",
